@@ -312,9 +312,15 @@ type op struct {
 	off  int64
 	w    string // s c e
 	path []int  // non-nil: the op is performed on the sub-reader at this child path (an aliased part)
+	on   int    // > 0: 1 + the member of the family {original, clones…} the op is performed on; 0: the current member
 }
 
 func (o op) String() string {
+	if o.on > 0 {
+		q := o
+		q.on = 0
+		return fmt.Sprintf("#%d %s", o.on-1, q.String())
+	}
 	if o.path != nil {
 		ss := make([]string, len(o.path))
 		for i, x := range o.path {
@@ -337,6 +343,15 @@ func (o op) String() string {
 
 func parseOp(s string) op {
 	ws := strings.Fields(s)
+	if strings.HasPrefix(ws[0], "#") {
+		o := parseOp(strings.Join(ws[1:], " "))
+		k, err := strconv.Atoi(ws[0][1:])
+		if err != nil {
+			panic(err)
+		}
+		o.on = k + 1
+		return o
+	}
 	if strings.HasPrefix(ws[0], "@") {
 		o := parseOp(strings.Join(ws[1:], " "))
 		o.path = []int{}
@@ -520,13 +535,31 @@ func (rn *runner) history(t *node, ops []op) {
 		if s, p := hlib.Catch(func() string { cur = b.build(t); return "" }); p {
 			panic("harness: cannot build " + t.term() + ": " + s)
 		}
+		// the family {original, clones…}: a clone is a new member, the others stay usable
+		fam := []any{cur}
+		curIdx := 0
 		for _, o := range ops {
 			s, panicked := hlib.Catch(func() string {
 				if o.path != nil {
 					tgt := t.at(o.path).obj
 					return runOp(&tgt, o)
 				}
-				return runOp(&cur, o)
+				k := curIdx
+				if o.on > 0 {
+					k = o.on - 1
+				}
+				if k >= len(fam) {
+					panic("harness: no such family member")
+				}
+				tgt := fam[k]
+				r := runOp(&tgt, o)
+				if o.kind == "cl" && tgt != fam[k] {
+					fam = append(fam, tgt)
+					if o.on == 0 {
+						curIdx = len(fam) - 1
+					}
+				}
+				return r
 			})
 			if panicked {
 				if strings.HasPrefix(s, "panic: harness:") || strings.Contains(s, "interface conversion") {
@@ -810,6 +843,7 @@ func (g *gen) ops(t *node) []op {
 	bs := boundaries(t)
 	var cur int64
 	var ops []op
+	members := 1
 	// negative readAt offsets: sections answer EOF; a bare IOBitReadSeeker panics (bare mode only)
 	neg := true
 	for i := 0; i < n; i++ {
@@ -864,6 +898,25 @@ func (g *gen) ops(t *node) []op {
 				o = op{kind: "ra", n: g.size(), off: g.pos(bs, l, neg)}
 			default:
 				o = op{kind: "rd", n: g.size()}
+			}
+		}
+		// interleave the members of the family {original, clones}: at most 3 members
+		if !t.isByte() {
+			if o.kind == "cl" {
+				if members >= 3 {
+					o = op{kind: "rd", n: g.size()}
+					if t.real().kind == "Z" {
+						o = op{kind: "ra", n: g.size(), off: g.pos(bs, l, false)}
+					}
+				} else {
+					if g.r.Bool() {
+						o.on = 1 + g.r.Intn(members)
+					}
+					members++
+				}
+			}
+			if o.kind != "cl" && members > 1 && g.r.Intn(2) == 0 {
+				o.on = 1 + g.r.Intn(members)
 			}
 		}
 		ops = append(ops, o)
@@ -953,6 +1006,7 @@ func (g *gen) aliasHistory() (*node, []op) {
 		if o.kind == "cl" {
 			continue // a clone is a new object: the parts named by the paths belong to the original
 		}
+		o.on = 0
 		if len(paths) > 0 && g.r.Intn(3) == 0 {
 			p := paths[g.r.Intn(len(paths))]
 			pn := t.at(p)
@@ -976,6 +1030,63 @@ func (g *gen) aliasHistory() (*node, []op) {
 			}
 			q.path = p
 			ops = append(ops, q)
+		}
+		ops = append(ops, o)
+	}
+	return t, ops
+}
+
+// clone families: an IOBitReadSeeker (bare, under a SectionReader, under a LimitReader, the interp._open stack) and
+// its clones share one io.ReadSeeker; mostly SEQUENTIAL reads on the members, interleaved, so that a member
+// continues exactly where its own previous read ended after another member moved the shared reader
+func (g *gen) cloneFamily() (*node, []op) {
+	var leaf *node
+	switch g.r.Intn(4) {
+	case 0:
+		leaf = &node{kind: "O", kids: []*node{{kind: "F", data: g.r.Bytes(g.r.Range(1, 40))}}}
+	default:
+		gb := &gen{r: g.r}
+		b := gb.byteSrc(g.r.Range(0, 2))
+		for strings.Contains(b.shape(), "Y") || b.length() == 0 {
+			b = gb.byteSrc(0)
+		}
+		leaf = &node{kind: "I", kids: []*node{b}}
+	}
+	t := leaf
+	switch g.r.Intn(4) {
+	case 0:
+		off, n := g.sub(leaf.length())
+		t = &node{kind: "S", a: off, b: n, kids: []*node{leaf}}
+	case 1:
+		t = &node{kind: "L", a: int64(g.r.Range(8, 400)), kids: []*node{leaf}}
+	}
+	l := t.length()
+	members := 1
+	var ops []op
+	for i := g.r.Range(4, 30); i > 0; i-- {
+		var o op
+		switch x := g.r.Intn(12); {
+		case x == 0 && members < 3:
+			o = op{kind: "cl", on: 1 + g.r.Intn(members)}
+			if g.r.Intn(3) == 0 {
+				o.on = 0
+			}
+			members++
+			ops = append(ops, o)
+			continue
+		case x == 1 && t.kind != "L":
+			o = op{kind: "sk", off: int64(g.r.Intn(int(l) + 1)), w: "s"}
+		case x == 2 && t.kind != "L":
+			o = op{kind: "sk", off: 0, w: "c"}
+		case x == 3 && t.kind != "L":
+			o = op{kind: "ra", n: int64(g.r.Range(0, 40)), off: int64(g.r.Intn(int(l) + 1))}
+		case x == 4:
+			o = op{kind: "rf", n: int64(g.r.Range(0, 40))}
+		default:
+			o = op{kind: "rd", n: int64([]int{8, 8, 16, 3, 5, 24, 1, 13}[g.r.Intn(8)])}
+		}
+		if members > 1 {
+			o.on = 1 + g.r.Intn(members)
 		}
 		ops = append(ops, o)
 	}
@@ -1273,6 +1384,10 @@ func (rn *runner) quirks() {
 		"h M 2 W 1 rd,4 B 1234 -1 B 56 -1 | raf 24 0 ; @0 sk 0 c ; @0 rd 4 ; @1 rd 8 ; rd 24",
 		"h M 2 B ab -1 B cd -1 | @0 rd 8 ; @1 sk 0 c ; ra 16 0",
 		"h L 12 W 1 rd,3 B abcd -1 | rd 5 ; @0 sk 0 c ; @0 rd 2 ; rd 8",
+		// clone families: members are independent cursors over the shared source
+		"h I R 11223344 | rd 8 ; #0 cl ; #1 rd 24 ; #0 rd 8 ; #1 sk 0 c ; #0 sk 0 c",
+		"h L 32 I R 11223344 | rd 8 ; #0 cl ; #1 rd 16 ; #0 rd 8 ; #1 rd 8",
+		"h O F 1122334455 | rd 8 ; cl ; rd 16 ; #0 rd 8 ; #1 rd 8 ; #0 cl ; #2 rd 24 ; #0 rd 8",
 	} {
 		rn.replayLine(l)
 	}
@@ -1384,6 +1499,16 @@ func main() {
 			o.Sample("h " + t.term() + " | " + ops[0].String() + " ; …")
 		}
 	}
+	gc := &gen{r: r.Fork()}
+	nClone := nHist / 4
+	for i := 0; i < nClone; i++ {
+		t, ops := gc.cloneFamily()
+		rn.history(t, ops)
+		if i < 2 {
+			o.Sample("h " + t.term() + " | " + ops[0].String() + " ; …")
+		}
+	}
+	o.Stat("clone_family_histories", nClone)
 	o.Stat("random_histories", nHist)
 	o.Stat("random_histories_api_level", nBare)
 	o.Stat("aliasing_histories", nAlias)
